@@ -9,7 +9,7 @@ def main():
     mc = games.mc_game(chk, depth=2 if q else 3, workers=8 if q else 16)
     results, paths = games.walk_traces(chk, events=600 if q else 20000, files=8 if q else 32)
     # one game longer than any fixed-size history: more than 1024 plies played and taken back again, every step validated
-    r4, p4 = games.walk_traces(chk, events=0, files=1 if q else 3, label="walk_long", long=1100 if q else 1500)
+    r4, p4 = games.walk_traces(chk, events=0, files=1 if q else 2, label="walk_long", long=1100 if q else 1300)
     results, paths = results + r4, paths + p4
     n_events, distinct = games.collect_walk(chk, results, paths)
     st = [r.stats("trace")[0] for r in results]
